@@ -28,7 +28,7 @@ func init() {
 	core.Register(&core.Spec{
 		ID:    "C13",
 		Level: "exploration",
-		Rule:  "controlled executions of graph.InDependencyOrder on generated projects: every labelled DAG on <=4 services, every topologically ordered DAG on 5 (thorough: sampled on 6) x direction x max concurrency {0,1,2,3} x root selections x injected visitor errors. Mode A: hooks pass through and every order in which running visits can be released is enumerated depth-first (one visit released per global quiescence). Mode B: every internal yield point (ready, enter, done, spawned, receive) parks as well and seeded random / starvation strategies choose what moves next. All digraphs with a cycle on <=4 nodes must be refused before any visit. A run is non-trivial when >=2 visits happened or the graph was cyclic; distinct = distinct (configuration, recorded event trace).",
+		Rule:  "controlled executions of graph.InDependencyOrder on generated projects: every labelled DAG on <=4 services, every topologically ordered DAG on 5 (thorough: sampled on 6) x direction x max concurrency {0,1,2,3} x root selections x injected visitor errors x optional dependencies on an unknown / a profile-disabled service. Mode A: hooks pass through and every order in which running visits can be released is enumerated depth-first (one visit released per global quiescence). Mode B: every internal yield point (ready, enter, done, spawned, receive) parks as well and seeded random / starvation strategies choose what moves next. All digraphs with a cycle on <=4 nodes must be refused before any visit. A run is non-trivial when >=2 visits happened or the graph was cyclic; distinct = distinct (configuration, recorded event trace).",
 		Assumptions: []string{
 			"events are recorded at the public visitor boundary under the monitor's own mutex; internal hook events only schedule, they never judge",
 			"quiescence = every goroutine other than the controller is blocked in a channel/sync wait state (runtime.Stack scan, confirmed twice); decided without clocks",
